@@ -2,6 +2,7 @@ import FormulaicVerif.Engines.Json
 import FormulaicVerif.Model.Heap
 import FormulaicVerif.Model.HeapScope
 import FormulaicVerif.Model.HeapX
+import FormulaicVerif.Model.HeapDot
 import FormulaicVerif.Spec.Purity
 import FormulaicVerif.Spec.PurityX
 /-! Engine `c18`: runs an extended history of operations (formula objects and their edits included)
@@ -110,7 +111,13 @@ def editOfJ (j : Json) : Edit :=
 
 def opOf (j : Json) : XOp :=
   match jstr j "op" with
-  | "formula" => .formula (formulaOf (jval j "f"))
+  | "formula" =>
+    -- a string spec with the `.` wildcard arrives as a template; the MODEL expands it against the columns of the
+    -- data set of this call and the variables of its own left-hand side (`Model/HeapDot.lean`)
+    match jval j "dot" with
+    | .null => .formula (formulaOf (jval j "f"))
+    | dt => .formula (Model.HeapDot.expand ((jarr dt "cols").map asStr) ((jarr dt "lhs").map asStr)
+        (formulaOf (jval dt "tmpl")) (formulaOf (jval dt "remove")))
   | "new" => .newSpec (jnat j "fid") (cfgOf j)
   | "update" => .update (jnat j "h") (updOf (jval j "u"))
   | "subset" => .subset (jnat j "h") (formulaOf (jval j "picks"))
